@@ -25,7 +25,7 @@ SI_LONG = ["milli", "micro", "nano", "pico", "femto", "atto", "zepto", "yocto", 
 
 LENGTH = (["1 m", "5 mile", "3.3 inch", "1|3 yard", "-2 km", "1e-7 m"],
           ["ft", "3 ft", "1|8 inch", "1000 km", "-meter", "12 inch / 5", "cm", "2.5 mm", "hex ft", "digits 20 ft", "base 7 inch", "sci ft", "frac inch"])
-ENERGY = (["1 kWh", "1 J", "3 cal", "1e-3 BTU"], ["kJ", "3 BTU", "1|2 erg", "W hour", "kg m^2 / s^2", "N m", "eV", "milliCalorie"])
+ENERGY = (["1 kWh", "1 J", "3 cal", "1e-3 btu"], ["kJ", "3 btu", "1|2 erg", "W hour", "kg m^2 / s^2", "N m", "eV", "milliCalorie"])
 AREA = (["1/mpg", "20|3 / mpg"], ["L / 100km", "liter / 100 kilometer", "m^2", "1|1000 mm^2"])
 SPEED = (["60 mph", "1 c", "3 knot"], ["km / hour", "m/s", "10 ft / min", "mile / 2 hour"])
 INFO = (["1 kB", "3 GiB", "12 bit"], ["byte", "kibibyte", "8 bit", "1|1024 MiB", "milliKB"])
@@ -303,6 +303,8 @@ def decide(run, jobs, leg, shards, lookups, quant_path, stats):
         for tagname in ("UNSUPPORTED", "NOTE"):
             if tagname in tags:
                 stats[tagname.lower()] = stats.get(tagname.lower(), 0) + 1
+        if "UNSUPPORTED" in tags and len(stats.setdefault("unsupported_examples", [])) < 5:
+            stats["unsupported_examples"].append({"q": q, "why": [d for t, d in v if t == "UNSUPPORTED"][:2]})
         if "UNSUPPORTED" not in tags:
             run.nontrivial(q)
         if "REJECT" in tags:
@@ -332,7 +334,7 @@ def run(tier, seed):
     run.cov["rule"] = ("TLC (MC_PartsGen) enumerates queries from the registry dump: units x (m * 10^(3j))^k <unit>^k over every SI prefix value, "
                        "m in {0.999, 1, 1000}, both signs, k in 1..3 (base units and regroupable derived units: the full grid; sampled units: a "
                        "seed-rotated stride of it); products of <= 4 base units with exponents -2..2; source -> target pairs (constants in the "
-                       "target, base / digits forms, unit lists, prefix+name self-conversions); durations; substances. non-trivial = distinct "
+                       "target, base / digits forms, unit lists, prefix+name self-conversions); definitions; durations; substances. non-trivial = distinct "
                        "query text with a numeric reply that the judge could decide.")
     run.assumptions += ["harness trusted for: string <-> code points, num-bigint <-> limbs, recording NumberParts field by field",
                         "a printed unit name is read with Context::lookup (rv-eval lookup job): C07 relates lookup to the specification",
@@ -399,6 +401,10 @@ def run(tier, seed):
     for c in cs:
         unit = c["q"].split(" ", 1)[1]
         jobs.append({"qs": "%s -> %s" % (c["q"], unit), "srcq": c["q"]})
+    # definitions: a bare unit name is answered with its definition and value
+    cs, r = gen("defs", "grid", seed, units=selfu, ms=[""], signs=[""], ks=[1], js=[0], stride=1 if thorough else 2)
+    run.add_tlc(r, "MC_PartsGen definitions")
+    jobs += [{"qs": c["q"].strip()} for c in cs]
     jobs += [{"qs": q} for q in DURATIONS + SUBSTANCES]
     decide(run, jobs, "conv", shards, lookups, quant_path, stats)
     run.sample({"leg": "conv", "q": jobs[0]["qs"]})
